@@ -10,6 +10,7 @@ package main
 import (
 	"encoding/json"
 	"fmt"
+	"github.com/jub0bs/cors"
 	"net/http"
 	"strings"
 	"time"
@@ -25,6 +26,13 @@ type C10Plan struct {
 	// response is the handler's own business — it is neither stored nor judged —
 	// but it must not change what LATER requests get.
 	Edits []string `json:"edits,omitempty"` // "" | scribble | delete_origin | zero
+	// Prior != nil: the middleware was first configured with Prior, served PriorReqs, and was
+	// then reconfigured to Cfg (possibly through passthrough); the cache world starts after that
+	// (an operator flushes the cache when the policy changes). "Every configuration" is every
+	// configuration however the middleware got there.
+	Prior     *Cfg  `json:"prior,omitempty"`
+	PriorReqs []Req `json:"prior_reqs,omitempty"`
+	ViaNil    bool  `json:"via_nil,omitempty"`
 }
 
 type c10 struct{}
@@ -34,7 +42,7 @@ func init() { register(c10{}) }
 func (c10) ID() string    { return "C10" }
 func (c10) Level() string { return "exploration" }
 func (c10) Rule() string {
-	return "one case = one accepted configuration + debug mode + optional outer Vary value + 4..24 requests in a seeded arrival order: populating requests from the probe suite and victims derived from them by mutating a seeded subset of {Origin, ACRM, ACRH, ACRPN, unrelated header} (change / remove / add / multi-value), plus exact duplicates; an outer party may have set Vary values (incl. names containing the middleware's own Vary names); in a third of the runs the application handler edits response-header slices in place on a few early requests (those responses are neither stored nor judged); the simulated cache stores every response and answers later requests that agree on the stored response's Vary-listed headers; distinct = distinct plan hash; non-trivial = at least one cache hit between non-identical requests"
+	return "one case = one accepted configuration (in a quarter of the cases reached from a prior configuration that served 1..4 requests, possibly through passthrough) + debug mode + optional outer Vary value + 4..24 requests in a seeded arrival order: populating requests from the probe suite and victims derived from them by mutating a seeded subset of {Origin, ACRM, ACRH, ACRPN, unrelated header} (change / remove / add / multi-value), plus exact duplicates; an outer party may have set Vary values (incl. names containing the middleware's own Vary names); in a third of the runs the application handler edits response-header slices in place on a few early requests (those responses are neither stored nor judged); the simulated cache stores every response and answers later requests that agree on the stored response's Vary-listed headers; distinct = distinct plan hash; non-trivial = at least one cache hit between non-identical requests"
 }
 func (c10) Budget(tier string) (int, time.Duration) {
 	if tier == "thorough" {
@@ -56,7 +64,7 @@ func (c10) FaultKinds() []string {
 	return []string{"F7_cache_hit_other_request", "F6_duplicate_request_hit", "F4_handler_edits_vary_in_place"}
 }
 func (c10) Probes() []string {
-	return []string{"hit_differs_in_origin", "hit_differs_in_preflight_headers", "hit_differs_in_unrelated_header", "preflight_stored", "preset_vary_checked", "miss_due_to_vary"}
+	return []string{"hit_differs_in_origin", "hit_differs_in_preflight_headers", "hit_differs_in_unrelated_header", "preflight_stored", "preset_vary_checked", "miss_due_to_vary", "state_reached_via_prior_configuration"}
 }
 
 func mutateReq(r *R, q Req, other []Req) Req {
@@ -126,7 +134,30 @@ func (c10) Gen(r *R, tier string) any {
 			p.PresetVary = append(p.PresetVary, pick(r, vocab))
 		}
 	}
+	if r.P(0.25) {
+		pc := genCfg(r)
+		if r.P(0.5) {
+			pc = p.Cfg.clone()
+			pc.Origins = genCfg(r).Origins // the same policy for other origins (e.g. discrete origins before, all origins now)
+		}
+		p.Prior, p.ViaNil = &pc, r.P(0.3)
+		ps := probeSuite(pc)
+		match, _ := originsFor(pc)
+		for n := r.Range(1, 4); n > 0; n-- {
+			q := ps[r.Intn(len(ps))]
+			if len(match) > 0 && r.P(0.6) { // requests the prior configuration allows
+				o := pick(r, match)
+				q = pick(r, []Req{{Method: "GET", H: []HV{{hOrigin, []string{o}}}}, preflight(o, "GET", nil, false), {Method: "POST", H: []HV{{hOrigin, []string{o}}}}})
+			}
+			p.PriorReqs = append(p.PriorReqs, q)
+		}
+	}
 	suite := probeSuite(p.Cfg)
+	if p.Prior != nil { // what the prior configuration allowed is asked for again under the new one
+		for _, q := range p.PriorReqs {
+			suite = append(suite, q, q)
+		}
+	}
 	nPop := r.Range(2, 8)
 	var pop []Req
 	for i := 0; i < nPop; i++ {
@@ -264,10 +295,44 @@ func sameReq(a, b Req) bool { return a.String() == b.String() }
 func (c10) Exec(plan any, c *Ctx) *Violation {
 	observeUnknownAPI = false
 	p := plan.(*C10Plan)
-	m, err, pan := newMW(p.Cfg)
-	if err != nil || pan != nil {
-		c.hit("generator_rejected")
-		return nil
+	var m *cors.Middleware
+	if p.Prior != nil {
+		var err error
+		var pan any
+		m, err, pan = newMW(*p.Prior)
+		if err != nil || pan != nil {
+			c.hit("generator_rejected")
+			return nil
+		}
+		m.SetDebug(p.Debug)
+		ps := newServer(m.Wrap)
+		var rerr error
+		if pn := catch(func() {
+			for _, q := range p.PriorReqs {
+				ps.do(q)
+			}
+			if p.ViaNil {
+				m.Reconfigure(nil)
+			}
+			clockTick("the reconfiguration")
+			cc := p.Cfg.Config()
+			rerr = m.Reconfigure(&cc)
+		}); pn != "" {
+			return &Violation{Class: "panic", Key: "prior", Detail: "history before the cache world: " + pn}
+		}
+		if rerr != nil {
+			c.hit("generator_rejected")
+			return nil
+		}
+		c.hit("state_reached_via_prior_configuration")
+	} else {
+		var err error
+		var pan any
+		m, err, pan = newMW(p.Cfg)
+		if err != nil || pan != nil {
+			c.hit("generator_rejected")
+			return nil
+		}
 	}
 	m.SetDebug(p.Debug)
 	edit := ""
@@ -363,6 +428,27 @@ func (c10) Shrink(plan any) []any {
 		q := *p
 		q.Debug = false
 		out = append(out, &q)
+	}
+	if p.Prior != nil {
+		q := *p
+		q.Prior, q.PriorReqs, q.ViaNil = nil, nil, false
+		out = append(out, &q)
+		for i := range p.PriorReqs {
+			q := *p
+			q.PriorReqs = append(append([]Req{}, p.PriorReqs[:i]...), p.PriorReqs[i+1:]...)
+			out = append(out, &q)
+		}
+		if p.ViaNil {
+			q := *p
+			q.ViaNil = false
+			out = append(out, &q)
+		}
+		for _, sc := range shrinkCfg(*p.Prior) {
+			q := *p
+			sc := sc
+			q.Prior = &sc
+			out = append(out, &q)
+		}
 	}
 	for i, e := range p.Edits {
 		if e != "" {
